@@ -267,7 +267,50 @@ pub fn judge_semantic_for(case: &Case, ctx: &mut Ctx, prop: &str) -> Verdict {
             ));
         }
     }
+    // leaves whose position is not ordered by the statement (directive values / arguments) are
+    // compared as a multiset per trace segment
+    let mut results = results;
+    if let Some(un) = case.extra["unordered_leaves"].as_array() {
+        let un: Vec<String> = un.iter().filter_map(|v| v.as_str().map(|s| s.to_string())).collect();
+        let split = |t: &Value| -> Value {
+            let mut ordered = vec![];
+            let mut unordered = vec![];
+            // unordered leaves are counted per slot-invocation segment
+            let mut seg = 0usize;
+            for e in t.as_array().cloned().unwrap_or_default() {
+                let s = e.as_str().unwrap_or("").to_string();
+                if s.starts_with("slot:") {
+                    seg += 1;
+                }
+                if un.contains(&s) {
+                    unordered.push(format!("{seg}:{s}"));
+                } else {
+                    ordered.push(e);
+                }
+            }
+            unordered.sort();
+            json!({"ordered": ordered, "unordered": unordered})
+        };
+        if let Some(obj) = results.as_object_mut() {
+            for (_, r) in obj.iter_mut() {
+                if r.get("creation_trace").is_some() {
+                    let v = split(&r["creation_trace"]);
+                    r["creation_trace"] = v;
+                }
+                if let Some(tr) = r.get_mut("traces").and_then(|t| t.as_object_mut()) {
+                    for (_, t) in tr.iter_mut() {
+                        let v = split(t);
+                        *t = v;
+                    }
+                }
+            }
+        }
+    }
     let mut keys = vec!["error", "exports"];
+    if case.extra["traces_only"].as_bool() == Some(true) {
+        // order/count properties: values are the business of C01-C05
+        keys = vec!["error"];
+    }
     if case.extra["protocol"]["fireListeners"].as_bool() == Some(true) {
         keys.push("fired");
     }
@@ -320,6 +363,7 @@ pub struct SemCase {
     pub n_elements: usize,
     pub opts: Opts,
     pub value_kinds: Vec<(String, &'static str)>,
+    pub unordered_leaves: Vec<String>,
 }
 
 /// Build a semantic case with `n` exported JSX statements.
@@ -354,5 +398,6 @@ pub fn sem_case(
         n_elements: g.n_elements,
         opts,
         value_kinds: g.value_kinds.clone(),
+        unordered_leaves: g.unordered_leaves.clone(),
     }
 }
